@@ -85,7 +85,7 @@ func newMonWorld(out *vcommon.Writer, run int, free bool) *monWorld {
 		w.h.wake()
 		return ch
 	}
-	w.baseWC = countStacks("go-lifecycle.(*lifecycle).WatchChannel")
+	w.baseWC = settleTo(func() int { return countStacks("go-lifecycle.(*lifecycle).WatchChannel") })
 	w.loop = cluster.VerifNewDeploymentMonitor(w.bus, newSession(w.calls, addr(2)), &fakeCluster{c: w.calls}, w.lease, w.group)
 	return w
 }
@@ -370,6 +370,10 @@ func monitorReplay(scripts, outPath string, from, to int) int {
 		}
 		if w.stuck {
 			stuck++
+		}
+		if stuck >= maxStuck {
+			fmt.Printf("STOPPED after %d stuck runs (run %d)\n", stuck, i)
+			break
 		}
 	}
 	fmt.Printf("REPLAYED runs=%d lines=%d stuck=%d inconclusive=%d\n", to-from, out.N, stuck, inconcl)
